@@ -59,16 +59,50 @@ RADII = [0, 1, 3, 20]
 MINIMISERS = ["none", "rde", "oc", "chain"]
 PATHS = ["chain", "chain", "wrapper", "deprecated"]
 CLASSES = ["easy", "faulty", "constrained", "devices", "tiny", "keys",
-           "faulty_fanout", "probed"]
+           "faulty_fanout", "probed", "crowded"]
 
 
 def plan(tier):
     n = 1200 if tier == "quick" else 100000
-    return [(c, n) for c in CLASSES]
+    return [(c, n if c != "crowded" else n // 2) for c in CLASSES]
+
+
+def gen_crowded(idx, rng, tier):
+    """Many nets with adjacent keys on a small fault-free machine, so that
+    every chip's table is long, partly default-routable and mergeable, and
+    table-size targets that the first minimiser of the chain misses but a
+    later one meets."""
+    w, h = rng.randint(2, 5), rng.randint(2, 5)
+    torus = rng.random() < .5
+    m = dict(w=w, h=h, dead_chips=[],
+             dead_links=[] if torus else sorted(par.wrap_links(w, h)))
+    m["res"] = {"Cores": 18, "SDRAM": 1000, "SRAM": 100}
+    m["exc"] = {}
+    nv = rng.randint(w * h, 3 * w * h)
+    vertices = [(i, {"Cores": rng.choice([1, 1, 2, 4])}) for i in range(nv)]
+    nets = []
+    for _ in range(rng.randint(12, 48)):
+        src = rng.randrange(nv)
+        fan = rng.choice([1, 1, 1, 2, 3])
+        nets.append((src, [rng.randrange(nv) for _ in range(fan)], 1.0))
+    base = rng.getrandbits(18) << 12
+    step = rng.choice([1, 1, 2, 4])
+    keys = [((base + i * step) & 0xffffffff, 0xffffffff)
+            for i in range(len(nets))]
+    return dict(machine=m, busy=[], vertices=vertices, nets=nets, keys=keys,
+                kmode="distinct", constraints=[], path="chain",
+                placer=rng.choice(["hilbert", "sequential", "rand", "rcm",
+                                   "breadth_first"]),
+                radius=rng.choice([1, 3, 20]),
+                minimiser=rng.choice(["chain", "chain", "oc", "rde"]),
+                target=rng.choice(["half", "per-chip", "per-chip", 3, 6, 10]),
+                seed=rng.randrange(1 << 30), easy=False, rtr_free=1023)
 
 
 def gen(cls, idx, rng, tier):
     side = 8 if tier == "quick" else 12
+    if cls == "crowded":
+        return gen_crowded(idx, rng, tier)
     if cls == "tiny":
         m = par.gen_faults(rng, "tiny")
     elif cls == "probed":
@@ -400,7 +434,10 @@ def run(case, ctx):
                         t = max(1, max([len(v) for v in tables.values()] +
                                        [1]) // 2)
                     elif t == "per-chip":
-                        t = {xy: rng.choice([None, 1023, len(tb), 2])
+                        t = {xy: rng.choice([None, 1023, len(tb), 2,
+                                             max(1, len(tb) - 1),
+                                             (len(tb) + 1) // 2,
+                                             max(1, len(tb) - 2)])
                              for xy, tb in tables.items()}
                     tables = rt.minimise_tables(tables, t, methods)
     except reject as e:
